@@ -13,7 +13,6 @@ from ..core import AnalysisError
 from ..absint import (Interp, DT, TD, Obj, ClassVal, AbsRaise, Unsupported, TimeVal)
 from ..model import ClassInfo, walk_no_nested
 from ..oracles import rfc
-from .c03 import dispatch_table
 
 DATE_FAMILY = {"DATE", "DATE-TIME", "DURATION", "PERIOD", "TIME"}
 
@@ -22,11 +21,8 @@ def class_caps(ctx):
     """class name -> set of RFC value types its from_ical decodes."""
     m = ctx.model
     caps = {k: {v} for k, v in rfc.CLASS_VALUE_TYPE.items()}
-    f, table = dispatch_table(ctx)
-    ddd = set()
-    for d, p, tgt, st in table:
-        if tgt in caps:
-            ddd |= caps[tgt]
+    from .. import codecmodel
+    ddd = codecmodel.ddd_capabilities(ctx)
     caps["vDDDTypes"] = ddd
     caps["vDDDLists"] = {"LIST:" + t for t in ddd}
     caps["vInline"] = {"TEXT"}
